@@ -169,7 +169,8 @@ def stereo_case(rng, swap_only=None):
                 nxt = '[$c%d]' % lab
                 order = 1
             frags.append(cur)
-            base.add_edge(fid, fid + 1, order=order)
+            # one bond between the two fragments (its order, 1 or 2, is the descriptors'): base edge of order 1
+            base.add_edge(fid, fid + 1, order=1, double=(order == 2))
             fid += 1
             cur = nxt
     frags.append(cur)
@@ -200,6 +201,21 @@ def stereo_case(rng, swap_only=None):
         lig_info.append((owner, len(frags) - 1, lig_first))
     for n in range(len(frags)):
         base.add_node(n)
+    # a label shared by descriptors of DIFFERENT order on one fragment: the double-bond descriptor of a cut double
+    # bond and one single-bond descriptor of the same (left-hand) fragment get the same label; the orders tell them apart
+    import re as _re
+    unlabelled = False
+    for i, t in enumerate(frags[:-1] if len(frags) > 1 else []):
+        m = _re.search(r'=\[\$(c\d+)\]$', t)
+        if not m or rng.random() < 0.5:
+            continue
+        dlab = m.group(1)
+        singles = [x for x in _re.findall(r'(?<!=)\[\$(\w+)\]', t) if x != dlab and not t.startswith('[$%s]=' % x)]
+        if not singles:
+            continue
+        old = rng.choice(singles)
+        frags = [f.replace('[$%s]' % old, '[$%s]' % dlab) for f in frags]
+        unlabelled = True
     names = ['F%d' % i for i in range(len(frags))]
     natural = False
     if rng.random() < 0.3 or len(frags) == 1:
@@ -213,7 +229,7 @@ def stereo_case(rng, swap_only=None):
             for k in j:
                 bs += '([#%s])' % names[k]
             if i + 1 < nmain:
-                bs += '=' if base.edges[i, i + 1]['order'] == 2 else ''
+                bs += ''
         natural = True
     else:
         bs, _ = gen_mol.render_base(rng, base, names)
@@ -221,13 +237,13 @@ def stereo_case(rng, swap_only=None):
     s = '{' + bs + '}.{' + ','.join('#%s=%s' % (names[i], frags[i]) for i in range(len(frags))) + '}'
     # is some cut double bond listed right-hand fragment first?
     appear = {n: bs.index('[#%s]' % n) for n in names}
-    reversed_double = any(d.get('order') == 2 and appear[names[min(a, b)]] > appear[names[max(a, b)]]
+    reversed_double = any(d.get('double') and appear[names[min(a, b)]] > appear[names[max(a, b)]]
                           for a, b, d in base.edges(data=True))
     # a cut-off marked substituent listed on the wrong side of its atom's fragment
     reversed_ligand = any((appear[names[lf]] > appear[names[owner]]) == lig_first for owner, lf, lig_first in lig_info)
     kinds = sorted({toks[i][1] for i in cuts} | ({'stub'} if cut_stubs else set()) | ({'substituent'} if lig_frags else set()))
     return {'kind': 'stereo', 's': s, 'whole': '{[#M]}.{#M=' + whole + '}', 'cuts': kinds or ['none'],
-            'natural': natural, 'reversed_double': reversed_double, 'right_ligand_first': right_ligand_first, 'reversed_ligand': reversed_ligand, 'expected': [[a, b, c] for (a, b), c in sorted(expected.items())],
+            'natural': natural, 'reversed_double': reversed_double, 'right_ligand_first': right_ligand_first, 'reversed_ligand': reversed_ligand, 'unlabelled': unlabelled, 'expected': [[a, b, c] for (a, b), c in sorted(expected.items())],
             'labels': [[l, nb] for l, nb in labels], 'all_atom': True}
 
 
